@@ -28,6 +28,12 @@ CHECKS = {
     "C06": ("exploration", "bounded-exhaustive enumeration of window shapes x format spellings; compiled EvalRates evaluated at exact boundary doubles",
             "All window shapes (none, 0/0, lower/upper only, both, adjacent pieces, inexact/tiny/huge bounds) in every spelling of the 6 formats and the API; compiled EvalRates is evaluated at each bound, its neighbouring doubles, mid-points and extremes: k equals the law inside the window and exactly 0.0 outside; adjacent pieces have exactly one active member at every temperature.",
             "Window predicate as stated in the property; KROME operator spellings are read as plain bounds.", "DESIGN.md §2 C06"),
+    "C07": ("exploration", "bounded-exhaustive enumeration of encoded lines and file arrangements per format; field-by-field comparison with the abstract reaction that was encoded",
+            "For each of the six formats every (reactant count, product count) layout x name classes (incl. column-filling names) x every type code, numbers^3 x index x windows are encoded by my own encoder and parsed by naunet; reactants/products (multisets), alpha/beta/gamma, window, index, type must equal the abstract reaction; markers never become species; every arrangement of <=4 items (data, blank, whitespace, KROME comment/directive lines) gives one reaction per data line in order.",
+            "Encoders follow the published column layouts (mc/ref/formats.py). UMIST NE>1 lines are judged in a separate sub-check (open known finding).", "DESIGN.md §2 C07"),
+    "C08": ("exploration", "bounded-exhaustive enumeration of names printed from compositions under 4 configurations of the global symbol tables",
+            "All singles, all ordered pairs (every adjacent symbol pair) and a family of triples of the configured chemical symbols x counts x ortho/para labels x surface prefixes/groups x charges are printed to names; Species(name) must give back exactly the composition, charge, phase, gas-phase counterpart, mass number, is_atom and (under replacement) the rewritten name; grain symbols with groups, electron spellings, pseudo-element affixes and foreign-character insertions (must raise) are enumerated as well. One fresh process per configuration slice.",
+            "Only names whose intended tokenisation is the unique (or unique fewest-token) reading are judged; mass numbers from my own isotope table.", "DESIGN.md §2 C08"),
 }
 
 NOT_YET = {
